@@ -1381,8 +1381,9 @@ def _run_bee_cfg(ctx, case, cli):
             ctx.violation("bee-unaligned-base-refused-block-straddles-fac-end" if base % BEE_UNIT else "bee-export-image-refuses-valid-layout",
                           dict(detail, refusal=str(e)[:200]))
         else:
-            ctx.refused(["bee", "cli" if cli else "cfg"], str(e))
-            ctx.note("bee_cfg_refusal", {"why": str(e)[:300], "detail": detail})
+            # every generated layout is a valid one (disjoint FAC regions inside the image's address window): a refusal
+            # means the configuration was not taken as written
+            ctx.violation("bee-valid-configuration-refused", dict(detail, refusal=str(e)[:300], single_entry=len(engine_list) == 1))
         return
     ctx.count("config_path")
     ctxs = []
